@@ -226,13 +226,11 @@ def r3(F, R):
     pushes = [(s2, t2) for s2, t2 in ex.calls(lambda t2: callee_is(t2, r"FuturesUnordered::<.*>::push$"))]
     R.check(len(st) == 1 and len(pushes) == 1 and _dominated_or_guarded(ex, st[0][0], pushes[0][0]), "register-before-dispatch", st[0][0] if st else ex, "start_scenarios(batch) precedes the pushes",
             "scenarios can be dispatched before they are registered with the log collector")
-    fi = [(s2, t2) for s2, t2 in ex.calls(lambda t2: callee_is(t2, r"Collector::finish_scenario$"))]
-    okd = False
-    if len(fi) == 1:
-        cp = A.canon_place(ex, op_place(fi[0][1]["args"][1])) if op_place(fi[0][1]["args"][1]) else None
-        fs = place_fields(cp) if cp else []
-        okd = bool(fs) and fs[-1] == ("{tuple}", "0")
-    R.check(okd, "deregister-on-consumed-completion", fi[0][0] if fi else ex, "finish_scenario(message.0)", "finish_scenario is not called with the id of the consumed completion message")
+    from . import completions as CP
+    C = CP.table(F)
+    dr = [(r, e) for r in C.msg_rows for _, e in r["dereg"]]
+    okd = bool(dr) and all(len(e[2]) > 1 and CP._strip(e[2][1]) == C.component(r, 0) for r, e in dr) and all(len(r["dereg"]) <= 1 for r in C.msg_rows)
+    R.check(okd, "deregister-on-consumed-completion", C.body, "finish_scenario(message.0)", "finish_scenario is not called (once) with the id of the consumed completion message")
     R.floor(6)
 
 
